@@ -38,6 +38,8 @@ LEVEL_TEXT = ("Theorems over the reals: every initialisation coefficient of the 
               "_Keplerians.calculate (all Newton passes) and get_position traced from the source equals the model's stage for all "
               "real inputs (169 theorems, PV.Equiv.Sgp4*). Kepler's equation has exactly one root and the returned anomaly is within "
               "1e-12/(1-e_L) of it whenever the loop exits through its test; for e_L <= 0.2 it always does (PV.Props.C01Kepler). "
+              "PV.Props.Pipeline composes text decoding, refusals, time arithmetic and propagation: every pair of lines is "
+              "rejected, refused with a stated class, or answered with the Str3 state of the PRINTED elements. "
               "Float tolerances (1 mm, 1 um/s, AIAA 5 mm) are measured, not proved.")
 LEVEL_NOTE = ("Trusted: Lean kernel + Mathlib reals; propext/Classical.choice/Quot.sound; hand-written model and its "
               "correspondence harness; transcription of the published equations; binary64 rounding is outside the theorems.")
